@@ -196,6 +196,25 @@ func c20Encode(k *core.Case, m *abs.Msg) {
 		k.Violate("aliasing", "two-encode-results-share-memory", "overwriting the first result changed the second", w)
 		return
 	}
+	// the LATEST result is the caller's too (send buffer recycled): the kept message - its header's own Marshal, which
+	// re-emits the header with the payload octets recorded at the last encoding, and those recorded octets - does not
+	// change when that buffer is overwritten
+	var hm1, hm2 []byte
+	var hmErr1, hmErr2 error
+	pbBefore := append([]byte{}, lm.IKEHeader.PayloadBytes...)
+	if pn := core.Try(func() { hm1, hmErr1 = lm.IKEHeader.Marshal() }); pn == nil && hmErr1 == nil {
+		hmOrig := hm1
+		hm1 = append([]byte{}, hm1...)
+		scribble(e3)
+		scribble(e2)
+		scribble(hmOrig) // ... and so is what the header's own Marshal returned
+		core.Try(func() { hm2, hmErr2 = lm.IKEHeader.Marshal() })
+		if hmErr2 != nil || !bytes.Equal(hm1, hm2) || !bytes.Equal(pbBefore, lm.IKEHeader.PayloadBytes) {
+			k.Violate("aliasing", "latest-returned-buffer-referenced-by-header", "overwriting the buffer returned by the LAST Encode changed what the kept header re-emits / records", w)
+			return
+		}
+		k.Count("header_remarshalled_after_latest_result_overwritten", 1)
+	}
 	// an equal message built separately encodes identically (function of the value)
 	lm2, _ := bridge.BuildMsg(m)
 	if e4, err4 := lm2.Encode(); err4 != nil || !bytes.Equal(e4, keep) {
